@@ -143,7 +143,7 @@ _SEQ = {}
 def pair_step(d0: int, d1: int, d2: int, d3: int, d4: int, d5: int, d6: int, d7: int, s: int) -> bool:
     """
     pre: 0 <= d0 < 3 and 0 <= d1 < 3 and 0 <= d2 < 3 and 0 <= d3 < 3 and 0 <= d4 < 3 and 0 <= d5 < 3 and 0 <= d6 < 3 and 0 <= d7 < 3
-    pre: 1 <= s <= 3 and (core.PARAMS.get("s") is None or s == core.PARAMS["s"])
+    pre: 1 <= s <= 3 and (core.PARAMS.get("s") is None or s == core.PARAMS["s"]) and (core.PARAMS.get("d0") is None or d0 == core.PARAMS["d0"])
     pre: all(x == 0 for x in [d0, d1, d2, d3, d4, d5, d6, d7][core.PARAMS["D"]:])
     post: _
     """
@@ -268,7 +268,7 @@ def _conflict_step(kn, k1, k2, n1, n2, n3, a1, a2, a3, b1, b2, b3, pn, pa, pb, d
 
 def jobs(tier):
     q = tier == "quick"
-    T = 400 if q else 2400
+    T = 600 if q else 2400
     D = 4 if q else 6
     js = []
     for kn in range(len(CKINDS)):
@@ -280,7 +280,8 @@ def jobs(tier):
     for i, p in enumerate(PAIRS):
         uses_s = "{s}" in p[1][1] or "{s}" in p[2][1]
         for sv in (1, 2, 3) if uses_s else (1,):
-            js.append({"name": f"pair_step[{p[0]},D={D},s={sv}]", "fn": "pair_step", "params": {"pair": i, "D": D, "s": sv}, "timeout": T, "per_path": 120, "unblock": ("sqlite3.connect", "sqlite3.connect/handle")})
+            for d0 in (0, 1, 2):
+                js.append({"name": f"pair_step[{p[0]},D={D},s={sv},d0={d0}]", "fn": "pair_step", "params": {"pair": i, "D": D, "s": sv, "d0": d0}, "timeout": T, "per_path": 120, "unblock": ("sqlite3.connect", "sqlite3.connect/handle")})
     return js
 
 
